@@ -207,6 +207,7 @@ class Model:
         known_path = os.path.join(os.path.dirname(os.path.abspath(__file__)), "known_functions.txt")
         with open(known_path, encoding="utf-8") as fh:
             known = {l.strip() for l in fh if l.strip() and not l.startswith("#")}
+        self.known_functions = known
 
         def short(q: str) -> str:
             parts = q.split(".")
@@ -237,6 +238,25 @@ class Model:
                 self.pulled_up[g.qname] = base_def.qname
         from .localnames import restore_names  # late import
         self.renamed_back = restore_names(self)
+        # a method of the confirmed tree that has become `name = staticmethod(module_function)` (or `name = module_function`):
+        # the class attribute is analysed as the method it was -- the function's body with a `self` parameter in front
+        import copy as _copy2
+        for c in list(self.classes.values()):
+            for name, val in list(c.assigns.items()):
+                if f"{c.name}.{name}" not in known or name in c.methods:
+                    continue
+                target = val.args[0] if isinstance(val, ast.Call) and isinstance(val.func, ast.Name) and val.func.id == "staticmethod" and len(val.args) == 1 else val
+                g = self.resolve_name(c.module, target.id) if isinstance(target, ast.Name) else None
+                if isinstance(g, FuncInfo) and g.cls is None:
+                    node = _copy2.deepcopy(g.node)
+                    node.name = name
+                    node.args.args = [ast.arg(arg="self", annotation=None)] + node.args.args
+                    node.decorator_list = []
+                    ast.fix_missing_locations(node)
+                    m_ = FuncInfo(name, f"{c.qname}.{name}", node, g.module, c)
+                    c.methods[name] = m_
+                    self.functions[m_.qname] = m_
+                    self.pulled_up[m_.qname] = g.qname
         new_helpers = {q: f for q, f in self.functions.items() if short(q) not in known and not f.name.startswith("__")}
         self.absorbed = {}
         self.inlined_into = {}
